@@ -14,19 +14,19 @@ ATTEST_FORMULAS = {
                             "C01_EffectsOnlyByExecute"],
                 p_properties=["P_C01_StepByOne", "P_C01_VoteContiguous", "P_C01_VotesOnlyByClaim", "P_C01_ObservedStable",
                               "P_C01_EffectsOnlyByExecute"]),
-    "C02": dict(invariants=["C02_TotalPowerCoversOnline", "C02_NoOracleTwiceInTally"],
+    "C02": dict(invariants=["C02_TotalPowerCoversOnline", "C02_NoOracleTwiceInTally", "IndexAgree"],
                 properties=["C02_QuorumJustified", "C02_VoterIsOnlineBridgerAndSigner"],
                 p_properties=["P_C02_QuorumJustified", "P_C02_VoterIsOnlineBridgerAndSigner"]),
 }
 
 
-def attest_consts(oracles, bridgers, maxnonce, mops, bonds):
-    return dict(Oracle=oracles, Bridger=bridgers, Variant=["A", "B"], MaxNonce=maxnonce, MaxMops=mops, MaxBonds=bonds,
+def attest_consts(oracles, bridgers, maxnonce, mops, bonds, variants=("A", "B")):
+    return dict(Oracle=oracles, Bridger=bridgers, Variant=list(variants), MaxNonce=maxnonce, MaxMops=mops, MaxBonds=bonds,
                 Forger=bridgers[-1])
 
 
-def attest_harness(chain, oracles, bridgers, maxnonce, stake):
-    return dict(chain=chain, Oracle=oracles, Bridger=bridgers, Variant=["A", "B"], MaxNonce=maxnonce, Stake=stake)
+def attest_harness(chain, oracles, bridgers, maxnonce, stake, variants=("A", "B")):
+    return dict(chain=chain, Oracle=oracles, Bridger=bridgers, Variant=list(variants), MaxNonce=maxnonce, Stake=stake)
 
 
 O2, O3, B3, B4 = ["o1", "o2"], ["o1", "o2", "o3"], ["b1", "b2", "b3"], ["b1", "b2", "b3", "b4"]
@@ -55,6 +55,12 @@ ATTEST_GEN = [
          harness=[attest_harness("eth", O3, B4, 1, STAKES["StakeEdge3"])], shards=16, rej_sample=0),
 ]
 
+
+# C06 clause "the observed external height comes from the event the quorum observed": variant "H" is the deposit of
+# "A" reported at another external height
+ATTEST_GEN_HEIGHT = dict(name="gen2h", tiers=["quick", "thorough", "dev"], consts=attest_consts(O2, B3, 2, 1, 2, ("A", "H")), overrides={"Stake": "StakeOdd2"},
+                         harness=[attest_harness("eth", O2, B3, 2, STAKES["StakeOdd2"], ("A", "H"))], shards=14, rej_sample=2)
+ATTEST_MC_HEIGHT = dict(name="mc2h", tiers=["quick", "thorough", "dev"], consts=attest_consts(O2, B3, 2, 2, 3, ("A", "H")), overrides={"Stake": "StakeOdd2"})
 
 O4, B5 = ["o1", "o2", "o3", "o4"], ["b1", "b2", "b3", "b4", "b5"]
 REC_CONSTS = attest_consts(O4, B5, 4, 0, 0)
